@@ -165,6 +165,12 @@ def Key.render (k : Key) : String :=
     if k.pool ≠ "" ∧ k.app = "" then pre
     else pre ++ k.typ ++ k.ns ++ "_" ++ k.app ++ "_" ++ k.pod
 
+/-- the key of an administrator's reservation: a text that does not parse as a pod key (rendered `_<text>_`; `ParseKey`
+    finds no pod name in it, so resync never examines it) -/
+def adminKey (text : String) : Key := ⟨"", "", "", text, ""⟩
+
+def Key.isAdmin (k : Key) : Bool := k.pool == "" && k.typ == "" && k.ns == "" && k.pod == "" && k.app != ""
+
 def Key.isDp (k : Key) : Bool := k.typ == Generated.Plugin.deploymentPrefixKey
 def Key.isSts (k : Key) : Bool := k.typ == Generated.Plugin.statefulsetPrefixKey
 
@@ -309,6 +315,8 @@ structure State where
   -- plugin
   lastConf : Option (List Pool) := none
   nodeCache : Tbl String Subnet := []
+  -- the addresses an administrator has reserved (labelled FloatingIP objects created by hand) with their records
+  admin : Tbl IP Rec := []
   -- the checklist (`resyncMeta.allocatedIPs`) of a resync pass in progress: taken by `resyncSnap`, consumed entry by
   -- entry by `resyncRec` - any other move may happen in between
   resyncSnap : Tbl IP Rec := []
@@ -578,7 +586,8 @@ def confKeep (s : State) (ps : List Pool) : Tbl IP Rec := Tbl.dedup ((listed s).
     addresses are about to be deleted -/
 def confBase (s : State) (ps : List Pool) : State :=
   { s with pools := ps, alloc := confKeep s ps, store := confKeep s ps,
-           orphans := (listed s).filter (fun e => !configured ps e.1) }
+           orphans := (listed s).filter (fun e => !configured ps e.1),
+           admin := s.admin.filter (fun e => configured ps e.1) }
 
 /-- stored objects whose address is no longer configured -/
 def confDrop (s : State) (ps : List Pool) : List IP := ((listed s).filter (fun e => !configured ps e.1)).map (·.1)
@@ -834,6 +843,22 @@ def filter (s : State) (ns name : String) (nodes : List String) (ch : Choice) : 
         let f := filterNodes g.1 set nodes []
         (f.1, { nodes := f.2 })
 
+/-- `Preempt(args)` (`preempt.go`): which of the candidate nodes stay candidates for the preemptor.  It runs `getSubnet` -
+    allocation during filter included - WITHOUT the pod lock and without the resource-name check; on an error of
+    `getSubnet` every node stays.  (At move granularity it is a Filter variant; that its unlocked allocation is harmless
+    in ANY interleaving is `preempt_alloc_any_time` in Lemmas/PluginPreempt.lean.) -/
+def preempt (s : State) (ns name : String) (nodes : List String) (ch : Choice) : State × Out :=
+  match s.pods.get (ns, name) with
+  | none => (s, Out.err "not-found")
+  | some pod =>
+    if policyOf pod = 0 then (s, { nodes := nodes })
+    else
+      match (getSubnet s pod ch).2 with
+      | .error .inadmissible => (s, Out.bad)
+      | .error _ => ((getSubnet s pod ch).1, { nodes := nodes })
+      | .ok set =>
+        ((filterNodes (getSubnet s pod ch).1 set nodes []).1, { nodes := (filterNodes (getSubnet s pod ch).1 set nodes []).2 })
+
 /-! ## Bind (`bind.go`) -/
 
 /-- assign + updateAttr loop of `allocateIP` -/
@@ -1070,9 +1095,14 @@ inductive Move
   | dropEvent (i : Nat)
   -- plugin entry points; `fault` / `pfault` = index of the apiserver / provider call that fails (0 = none)
   | filter (ns name : String) (nodes : List String) (ch : Choice) (fault : Nat)
+  | preempt (ns name : String) (nodes : List String) (ch : Choice) (fault : Nat)
   | bind (ns name : String) (uid : Uid) (node : String) (ch : Choice) (fault pfault : Nat)
   | deliver (i : Nat) (fault pfault : Nat)
   | resync (order : List IP) (fault pfault : Nat)
+  -- an administrator reserves an unallocated address by creating a labelled FloatingIP object (the watch event is
+  -- handled at once: the window between object and event is the IPAM-level model's subject), or gives it back
+  | adminReserve (ip : IP) (text : String) (policy : Nat)
+  | adminUnreserve (ip : IP)
   | resyncSnap                                          -- fetchChecklist: snapshot of the records to examine
   | resyncRec (ip : IP) (fault pfault : Nat)           -- one iteration of resyncAllocatedIPs for a snapshot entry
   | syncPodIPs (fault : Nat)
@@ -1136,6 +1166,7 @@ def step (F : Facts) (s : State) : Move → State × Out
   | .dropEvent i =>
     if i < s.events.length then ({ s with events := s.events.eraseIdx i }, {}) else (s, Out.bad)
   | .filter ns name nodes ch fault => filter (withFaults s fault 0) ns name nodes ch
+  | .preempt ns name nodes ch fault => preempt (withFaults s fault 0) ns name nodes ch
   | .bind ns name uid node ch fault pfault => bind F (withFaults s fault pfault) ns name uid node ch
   | .deliver i fault pfault => deliver F (withFaults s fault pfault) i
   | .resync order fault pfault => resync F (withFaults s fault pfault) order
@@ -1144,7 +1175,22 @@ def step (F : Facts) (s : State) : Move → State × Out
     match s.resyncSnap.get ip with
     | none => (s, Out.bad)
     | some r0 =>
-      ({ resyncOne F (withFaults s fault pfault) ip r0 with resyncSnap := s.resyncSnap.erase ip }, {})
+      if !inChecklist r0 then (s, Out.bad)      -- (never: the snapshot is filtered by `inChecklist`)
+      else ({ resyncOne F (withFaults s fault pfault) ip r0 with resyncSnap := s.resyncSnap.erase ip }, {})
+  | .adminReserve ip text policy =>
+    if text = "" then (s, Out.err "bad-input")
+    else if !s.free.contains ip then (s, Out.err "not-free")
+    else
+      ({ s with store := s.store.set ip { key := adminKey text, policy := policy, node := "", uid := 0, reserved := true, ts := s.clock },
+                alloc := s.alloc.set ip { key := adminKey text, policy := policy, node := "", uid := 0, reserved := true, ts := s.clock },
+                free := s.free.filter (· ≠ ip),
+                admin := s.admin.set ip { key := adminKey text, policy := policy, node := "", uid := 0, reserved := true, ts := s.clock } }, {})
+  | .adminUnreserve ip =>
+    match s.admin.get ip with
+    | none => (s, Out.err "not-found")
+    | some _ =>
+      ({ s with store := s.store.erase ip, alloc := s.alloc.erase ip, free := ip :: s.free.filter (· ≠ ip),
+                admin := s.admin.erase ip }, {})
   | .syncPodIPs fault => syncPodIPs (withFaults s fault 0)
   | .apiRelease ip k fault pfault => apiRelease F (withFaults s fault pfault) ip k
   | .reload pools fault => reload (withFaults s fault 0) pools
@@ -1153,13 +1199,16 @@ def step (F : Facts) (s : State) : Move → State × Out
 /-- the move executed under a crash plan (moves without apiserver / provider calls are unaffected) -/
 def stepCrash (F : Facts) (k j : Nat) (s : State) : Move → State × Out
   | .filter ns name nodes ch _ => filter (withCrash s k j) ns name nodes ch
+  | .preempt ns name nodes ch _ => preempt (withCrash s k j) ns name nodes ch
   | .bind ns name uid node ch _ _ => bind F (withCrash s k j) ns name uid node ch
   | .deliver i _ _ => deliver F (withCrash s k j) i
   | .resync order _ _ => resync F (withCrash s k j) order
   | .resyncRec ip _ _ =>
     match s.resyncSnap.get ip with
     | none => (s, Out.bad)
-    | some r0 => ({ resyncOne F (withCrash s k j) ip r0 with resyncSnap := s.resyncSnap.erase ip }, {})
+    | some r0 =>
+      if !inChecklist r0 then (s, Out.bad)
+      else ({ resyncOne F (withCrash s k j) ip r0 with resyncSnap := s.resyncSnap.erase ip }, {})
   | .syncPodIPs _ => syncPodIPs (withCrash s k j)
   | .apiRelease ip key _ _ => apiRelease F (withCrash s k j) ip key
   | .reload pools _ => reload (withCrash s k j) pools
